@@ -677,7 +677,7 @@ func ProfileByName(name string) Profile {
 		p.PInvalid = 45
 		p.Repeats = 7
 		p.PIssuePath = 12 // issues filed under another node's key: the key's list is built from several visits
-		p.PCustomTpl = 8
+		p.PCustomTpl = 12
 	case "C12":
 		p.PUserTest = 60
 		p.PPT = 50
